@@ -422,6 +422,12 @@ func c17Command(rc *RunCtx, t *simrt.Tape) {
 	if !viaStdin && decoderSilent(codec, data) {
 		dec = "decoder-silent"
 	}
+	if viaStdin && codec == 5 && kind == fkTruncate && memberBoundary(fc.Text, k-1) {
+		// one byte of the next member's header after a complete member: zlib (the decoder of
+		// standard input) cannot recognise a header in a single byte and, as documented for
+		// gzread, ignores it as trailing garbage
+		dec = "decoder-silent-zlib"
+	}
 	outcome := "ok-partial"
 	if complete {
 		outcome = "ok-complete"
